@@ -96,6 +96,14 @@ CHECKS["C15"] = dict(
     engine="gev",
 )
 
+CHECKS["C20"] = dict(
+    technique="replicated-execution monitor: the same input set compiled in several fresh processes (fresh hash seeds) under permuted insertion orders and import_group splits; outputs compared byte for byte",
+    text="Groups of 2-5 templates (each with >= 12 data fields so that the binding-map initialiser has many keys) and scripts are compiled by 6 (quick) / 8 (thorough) fresh driver processes under different insertion orders and import_group splits; every emit API must yield exactly one distinct byte string per file set. Stylesheets with every option are transformed in each process and CSS + source map bytes must coincide.",
+    note="Trusted: each driver invocation is a fresh process, so std's RandomState differs between observations.",
+    ref="2/C20",
+    engine="gev",
+)
+
 NOT_YET = {}
 
 
